@@ -368,3 +368,201 @@ Section Pipeline.
     ct_decl (mk_container parse_float getenv d names) = d.
   Proof. unfold mk_container. destruct (set_from_env _ _ _ _ _); cbn; auto. Qed.
 End Pipeline.
+
+(** * Custom values: the call protocol (C19) *)
+Section Custom.
+  Variable parse_float : str -> option str.
+  Variable getenv : str -> str.
+
+  Definition set_call (s : str) : str := lit "S:" ++ s.
+  Definition fails (s : str) : bool := prefix_b s_bad s.
+
+  (** the calls made by [set_all] on a custom value: one Set per token, in order, stopping at the
+      first token whose Set fails *)
+  Fixpoint calls_until_failure (vs : list str) : list str * bool :=
+    match vs with
+    | [] => ([], true)
+    | s :: vs' => if fails s then ([set_call s], false)
+                  else let (l, ok) := calls_until_failure vs' in (set_call s :: l, ok)
+    end.
+
+  Lemma set_all_custom vs : forall log,
+    set_all parse_float (VCustom log) vs =
+    if snd (calls_until_failure vs) then Some (VCustom (log ++ fst (calls_until_failure vs))) else None.
+  Proof.
+    induction vs as [|s vs IH]; intros log; cbn [set_all calls_until_failure].
+    - cbn. now rewrite app_nil_r.
+    - cbn [vset_log]. unfold fails, set_call. destruct (prefix_b s_bad s); cbn [negb fst snd]; [reflexivity|].
+      rewrite IH. destruct (calls_until_failure vs) as [l ok]; cbn [fst snd].
+      destruct ok; [|reflexivity]. now rewrite <- app_assoc.
+  Qed.
+
+  (** fillContainers on a custom value: nothing is called when the line binds nothing; otherwise
+      Clear exactly once iff the type has Clear, then Set with exactly the bound tokens in order;
+      a failing Set makes the parse fail *)
+  Theorem fill_one_custom (c : container) (cu : custom) (log : list str) (vs : list str) :
+    d_kind (ct_decl c) = KCustom cu -> ct_value c = VCustom log ->
+    fill_one parse_float c vs =
+    match vs with
+    | [] => Some c
+    | _ => let pre := if cu_clear cu then [lit "C"] else [] in
+           if snd (calls_until_failure vs)
+           then Some (mkCont (ct_decl c) (ct_names c)
+                             (VCustom ((log ++ pre) ++ fst (calls_until_failure vs))) (ct_default c) false true)
+           else None
+    end.
+  Proof.
+    intros Hk Hv. unfold fill_one. destruct vs as [|s vs]; [reflexivity|].
+    rewrite Hk, Hv. cbn [is_multi vclear].
+    destruct (cu_clear cu); rewrite set_all_custom; [|rewrite app_nil_r];
+      destruct (snd (calls_until_failure (s :: vs))); reflexivity.
+  Qed.
+
+  (** a custom type is usable as a flag without a value iff its IsBoolFlag() is true *)
+  Theorem custom_flag opts i c cu :
+    nth_error opts i = Some c -> d_kind (ct_decl c) = KCustom cu ->
+    oi_isbool (optinfo_of opts) i = cu_isbool cu.
+  Proof. intros Hn Hk. cbn. now rewrite Hn, Hk. Qed.
+
+  (** declaration time, type without Clear: Set(v) for each listed variable with a non-empty
+      value, in order, until one succeeds *)
+  Fixpoint env_calls_single (vars : list str) : list str * bool :=
+    match vars with
+    | [] => ([], false)
+    | ev :: vars' =>
+      match getenv ev with
+      | [] => env_calls_single vars'
+      | v => if fails v then let (l, ok) := env_calls_single vars' in (set_call v :: l, ok)
+             else ([set_call v], true)
+      end
+    end.
+
+  Theorem set_from_env_custom_single k vars : forall log,
+    is_multi k = false ->
+    set_from_env_vars parse_float getenv k (VCustom log) vars =
+    (VCustom (log ++ fst (env_calls_single vars)), snd (env_calls_single vars)).
+  Proof.
+    intros log Hk. revert log. induction vars as [|ev vars IH]; intros log; cbn [set_from_env_vars env_calls_single].
+    - cbn. now rewrite app_nil_r.
+    - destruct (getenv ev) as [|c0 v] eqn:Hg; [apply IH|]. rewrite Hk. cbn [vset_log].
+      unfold fails, set_call. destruct (prefix_b s_bad (c0 :: v)); cbn [negb].
+      + rewrite IH. destruct (env_calls_single vars) as [l ok]; cbn [fst snd]. now rewrite <- app_assoc.
+      + reflexivity.
+  Qed.
+
+  (** declaration time, type with Clear: per non-empty variable: Clear, then Set of each trimmed
+      piece; a failing piece is followed by Clear and the next variable is tried *)
+  Fixpoint piece_calls (ps : list str) : list str * bool :=
+    match ps with
+    | [] => ([], true)
+    | p :: ps' => if fails (trim_space p) then ([set_call (trim_space p); lit "C"], false)
+                  else let (l, ok) := piece_calls ps' in (set_call (trim_space p) :: l, ok)
+    end.
+
+  Fixpoint env_calls_multi (vars : list str) : list str * bool :=
+    match vars with
+    | [] => ([], false)
+    | ev :: vars' =>
+      match getenv ev with
+      | [] => env_calls_multi vars'
+      | v => let (l, ok) := piece_calls (split_comma v) in
+             if ok then (lit "C" :: l, true)
+             else let (l2, ok2) := env_calls_multi vars' in ((lit "C" :: l) ++ l2, ok2)
+      end
+    end.
+
+  Lemma set_all_trimmed_custom ps : forall log,
+    set_all_trimmed parse_float (VCustom log) ps =
+    (VCustom (log ++ fst (piece_calls ps)), snd (piece_calls ps)).
+  Proof.
+    induction ps as [|p ps IH]; intros log; cbn [set_all_trimmed piece_calls].
+    - cbn. now rewrite app_nil_r.
+    - cbn [vset_log]. unfold fails, set_call. destruct (prefix_b s_bad (trim_space p)); cbn [negb fst snd].
+      + cbn [vclear]. now rewrite <- app_assoc.
+      + rewrite IH. destruct (piece_calls ps) as [l ok]; cbn [fst snd]. now rewrite <- app_assoc.
+  Qed.
+
+  Theorem set_from_env_custom_multi k vars : forall log,
+    is_multi k = true ->
+    set_from_env_vars parse_float getenv k (VCustom log) vars =
+    (VCustom (log ++ fst (env_calls_multi vars)), snd (env_calls_multi vars)).
+  Proof.
+    intros log Hk. revert log. induction vars as [|ev vars IH]; intros log; cbn [set_from_env_vars env_calls_multi].
+    - cbn. now rewrite app_nil_r.
+    - destruct (getenv ev) as [|c0 v] eqn:Hg; [apply IH|]. rewrite Hk.
+      unfold set_multivalued. cbn [vclear]. rewrite set_all_trimmed_custom.
+      destruct (piece_calls (split_comma (c0 :: v))) as [l ok]; cbn [fst snd]. destruct ok.
+      + now rewrite <- app_assoc.
+      + rewrite IH. destruct (env_calls_multi vars) as [l2 ok2]; cbn [fst snd].
+        now rewrite <- !app_assoc.
+  Qed.
+End Custom.
+
+(** * strconv.ParseInt(s, 10, 64) and ParseBool as implemented in the model (C13) *)
+Definition is_digit (c : ascii) : bool := in_range 48 57 c.
+Definition digits_value (acc : Z) (ds : str) : Z :=
+  fold_left (fun a c => (a * 10 + (Z.of_N (code c) - 48))%Z) ds acc.
+
+Lemma parse_digits_spec s : forall acc,
+  parse_digits acc s = if forallb is_digit s then Some (digits_value acc s) else None.
+Proof.
+  induction s as [|c s IH]; intros acc; cbn [parse_digits forallb digits_value fold_left]; [reflexivity|].
+  unfold digit_val, is_digit. destruct (in_range 48 57 c); cbn [andb]; [apply IH | reflexivity].
+Qed.
+
+(** base 10, optional sign, at least one digit, nothing else (no blanks, no underscores, no
+    0x), value within the 64-bit range *)
+Theorem parse_int_spec s :
+  parse_int s =
+  let '(neg, ds) := match s with
+                    | c :: s' => if Ascii.eqb c "+"%char then (false, s')
+                                 else if Ascii.eqb c c_dash then (true, s') else (false, s)
+                    | [] => (false, s)
+                    end in
+  match ds with
+  | [] => None
+  | _ => if forallb is_digit ds
+         then let z := if neg then (- digits_value 0 ds)%Z else digits_value 0 ds in
+              if (int_min <=? z)%Z && (z <=? int_max)%Z then Some z else None
+         else None
+  end.
+Proof.
+  unfold parse_int.
+  destruct (match s with
+            | [] => (false, s)
+            | c :: s' => if Ascii.eqb c "+"%char then (false, s')
+                         else if Ascii.eqb c c_dash then (true, s') else (false, s)
+            end) as [neg ds].
+  destruct ds as [|d ds]; [reflexivity|]. rewrite parse_digits_spec.
+  destruct (forallb is_digit (d :: ds)); reflexivity.
+Qed.
+
+Theorem parse_bool_spec s :
+  parse_bool s =
+  if mem_str s [lit "1"; lit "t"; lit "T"; lit "TRUE"; lit "true"; lit "True"] then Some true
+  else if mem_str s [lit "0"; lit "f"; lit "F"; lit "FALSE"; lit "false"; lit "False"] then Some false
+  else None.
+Proof. reflexivity. Qed.
+
+(** every container is filled from its own bindings only *)
+Lemma fill_spec (parse_float : str -> option str) cs : forall i mk bs,
+  match fill parse_float cs i mk bs with
+  | Some cs' => forall k c, nth_error cs k = Some c ->
+                            exists c', nth_error cs' k = Some c' /\
+                                       fill_one parse_float c (values_for (mk (i + k)) bs) = Some c'
+  | None => exists k c, nth_error cs k = Some c /\
+                        fill_one parse_float c (values_for (mk (i + k)) bs) = None
+  end.
+Proof.
+  induction cs as [|c cs IH]; intros i mk bs; cbn [fill].
+  - intros k c Hk. destruct k; discriminate.
+  - destruct (fill_one parse_float c (values_for (mk i) bs)) as [c1|] eqn:H1.
+    + specialize (IH (S i) mk bs). destruct (fill parse_float cs (S i) mk bs) as [cs1|]; cbn [option_map].
+      * intros k c0 Hk. destruct k as [|k]; cbn in Hk.
+        -- injection Hk as <-. exists c1. rewrite Nat.add_0_r. auto.
+        -- destruct (IH k c0 Hk) as (c' & Hn & Hf). exists c'. split; [assumption|].
+           now replace (i + S k) with (S i + k) by lia.
+      * destruct IH as (k & c0 & Hk & Hf). exists (S k), c0. split; [assumption|].
+        now replace (i + S k) with (S i + k) by lia.
+    + exists 0, c. rewrite Nat.add_0_r. auto.
+Qed.
